@@ -286,6 +286,32 @@ class CountingGenerator(InstructionGenerator):
         return CountingGenerator(self.seen + 1), tuple(out)
 
 
+class DiceGenerator(InstructionGenerator):
+    """a controller that draws from the interpreter's GLOBAL random stream, as the custom dispatcher of hive's own
+    examples/cosim_custom_dispatcher.py does; the user seeds that stream once, after loading.  However the run is cut into
+    calls, the draws must come out of the one stream in the same order."""
+
+    @property
+    def name(self) -> str:
+        return "DiceGenerator"
+
+    def generate_instructions(self, simulation_state, environment):
+        import random as global_random
+
+        sim = simulation_state
+        out = []
+        targets = sorted({e.geoid for e in list(sim.stations.values()) + list(sim.bases.values())})
+        for v in sim.get_vehicles():
+            if type(v.vehicle_state).__name__ != "Idle" or not targets:
+                continue
+            if global_random.random() < 0.3 and isinstance(sim.road_network, HaversineRoadNetwork):
+                import nrel.hive.model.roadnetwork.haversine_link_id_ops as h_ops
+
+                g = global_random.choice(targets)
+                out.append(RepositionInstruction(v.id, h_ops.geoids_to_link_id(g, g)))
+        return self, tuple(out)
+
+
 class Wrapped(InstructionGenerator):
     """a built-in generator, unchanged, whose emissions are also reported to the tracer"""
 
